@@ -705,6 +705,16 @@ func (c *Ctx) boundsOK(b *ssa.BasicBlock, x, idx ssa.Value, slack int64, pc *cor
 				for _, side := range []ssa.Value{bo.X, bo.Y} {
 					if t, _ := core.Linear(side); strings.HasPrefix(t, "len(") {
 						d.Add("0", t, 0)
+						// ... and equal to the length of the slices it is known to be as long as
+						if lc := lenCallOf(side); lc != nil && len(same) > 0 {
+							for _, v := range c.lenFacts().sameLen(lc.Call.Args[0], b, pc) {
+								t2 := "len(" + core.Canon(v) + ")"
+								if t2 != t {
+									d.Add(t, t2, 0)
+									d.Add(t2, t, 0)
+								}
+							}
+						}
 					}
 				}
 			}
@@ -736,6 +746,30 @@ func (c *Ctx) boundsOK(b *ssa.BasicBlock, x, idx ssa.Value, slack int64, pc *cor
 		}
 	}
 	return true, "index proved within bounds from the path condition"
+}
+
+// lenCallOf: v is len(x) (possibly plus a constant): the len call.
+func lenCallOf(v ssa.Value) *ssa.Call {
+	for i := 0; i < 4; i++ {
+		switch x := v.(type) {
+		case *ssa.Call:
+			if isLenCall(x) {
+				return x
+			}
+			return nil
+		case *ssa.BinOp:
+			if _, ok := core.ConstInt(x.Y); ok {
+				v = x.X
+				continue
+			}
+			return nil
+		case *ssa.Convert:
+			v = x.X
+			continue
+		}
+		return nil
+	}
+	return nil
 }
 
 // counterFieldLoad: idx is read from an integer struct field that starts at zero and is only
